@@ -154,6 +154,56 @@ def build(cfg, values=None):
                     red[a] = red[a] - inc * cc.thetaTrad * kuk[a, 1]
             for a in range(min(len(fext), len(keep))):
                 obs.append(('fext[%d]' % a, fext[a], red[a]))
+        elif variant == 'fext-harmonics':
+            # circumferentially varying axial line load on the top edge, Nxx(theta) = N[0] + sum_j N[2j-1] sin(j theta) + N[2j] cos(j theta):
+            # its load vector against the virtual work  oint Nxx u_k(0, theta) r2 dtheta  of the package's own u field, the integral
+            # over theta done exactly (vf/trigpoly.py)
+            from .. import cysym
+            from ..trigpoly import World, TP
+            from ..harness import REPO
+            import os
+            from ..shadow import ShimCSR
+            model = cfg['model']
+            cc.r2, cc.L = V('r2'), V('L')
+            cc.alphadeg = V('alphadeg')
+            cc.tLAdeg = V('tLAdeg')
+            cc.pdC, cc.pdT, cc.pdLA = False, True, True
+            n2 = cc.n2
+            N = np.array([V('N%d' % k) for k in range(2 * n2 + 1)], dtype=object)
+            cc.Nxxtop = N.copy()
+            inc = V('inc')
+            nsz = 3 + 3 * cc.m1 + 6 * cc.m2 * cc.n2
+            cc.k0 = ShimCSR((nsz, nsz))
+            cc._rebuild()
+            size = cc.get_size()
+            ex = sorted(cc.excluded_dofs)
+            keep = [i for i in range(size) if i not in ex]
+            kuk = np.zeros((len(keep), cc.num0), dtype=object)
+            for a in range(len(keep)):
+                for j in range(cc.num0):
+                    kuk[a, j] = 0
+            fext = cc.calc_fext(inc=inc, kuk=kuk, silent=True)
+            W = World(ctx.trig, cc.L, ctx.trig._same)
+            cenv = dict(ctx.kernels.extra_env)
+            cenv.update({'sin': W.sin, 'cos': W.cos})
+            C = cysym.Module(os.path.join(REPO, COMMONS[model]), env=cenv).ns
+            Nxx = TP.const(N[0], W)
+            for j in range(1, n2 + 1):
+                Nxx = Nxx + W.sin(W.theta * j) * N[2 * j - 1] + W.cos(W.theta * j) * N[2 * j]
+            num0, num1 = cc.num0, 3
+            first_double = num0 + num1 * cc.m1
+            for a, k in enumerate(keep):
+                if k in (1, 2):
+                    continue        # torsion / tilt amplitudes: the package's own definition of their load terms (not decided here)
+                e = np.zeros(size, dtype=object)
+                e[k] = 1
+                out = C['fuvw'](e, cc.m1, cc.m2, cc.n2, cc.alpharad, cc.r2, cc.L, cc.tLArad, np.array([0], dtype=object), np.array([W.theta], dtype=object), 1)
+                u = np.ravel(out[0])[0]
+                u = u if isinstance(u, TP) else TP.const(u, W)
+                val = W.integrate(Nxx * u, 0, 1)
+                obs.append(('fext-harmonic-axial-load[%d]' % k, fext[a], inc * val.re * cc.r2))
+                if not val.im.is_zero():
+                    obs.append(('fext-harmonic-real[%d]' % k, val.im, 0))
         else:
             raise ValueError(variant)
     if values is None:
@@ -176,6 +226,8 @@ def configs(tier, seed):
         for model in models:
             out.append({'variant': 'fext', 'pd': pd, 'model': model, 'mn': (1, 1, 1) if quick else (2, 1, 2), 'group': 'fext:%s:pdC=%d,pdT=%d' % ((model,) + pd[:2]), 'm': 1, 'n': 1,
                         'timeout_ms': 120000})
+    for model in (['clpt_donnell_bc2', 'clpt_donnell_bc4', 'clpt_donnell_bc1'] if quick else list(COMMONS)):
+        out.append({'variant': 'fext-harmonics', 'model': model, 'mn': (1, 2, 2), 'group': 'fext-harmonic-axial-load:%s' % model, 'm': 2, 'n': 2, 'timeout_ms': 120000})
     out[0]['canary'] = True
     out[-1]['canary'] = True
     out[10]['canary'] = True
